@@ -102,8 +102,13 @@ def gen(rng, tier):
                                ['close', room()]])
             ops.append(['emit_then', rng.randrange(nhosts), ns, to, None,
                         then])
-        elif k < 0.86:
+        elif k < 0.84:
             ops.append(['emit_cb', rng.randrange(nhosts), p, ns])
+        elif k < 0.86:
+            # the publish of this one fails (once): the emit raises; what
+            # was outstanding before, and what is issued afterwards, must
+            # not notice
+            ops.append(['emit_cb_pubfail', rng.randrange(nhosts), p, ns])
         elif k < 0.92:
             ops.append(['ack', p])
         elif k < 0.95:
@@ -329,6 +334,22 @@ def _run(case, cfg, w):
             sc.forget(p, ns)
             model.disconnect(sid, ns)
             after_membership(ns)
+        elif k == 'emit_cb_pubfail':
+            _, hi, p, ns = op
+            sid = sc.sid(p, ns)
+            if not sid or owner_host[sid] == hi or \
+                    set(model.recipients(ns, sid, None)) != {sid}:
+                continue     # (a local recipient would still be served;
+                #              followers of the sid would make it a
+                #              multi-recipient callback emit)
+            bus.fail_publish['h%d' % hi] = True
+            hh = w.api('h%d' % hi, 'emit', 'q', 'never-%d' % opi, to=sid,
+                       namespace=ns,
+                       callback=lambda *a: cb_log.append(('never', a)))
+            w.settle(horizon=0.0)
+            bus.fail_publish.pop('h%d' % hi, None)
+            hh.expected_failure = True
+            nontrivial = True
         elif k == 'disc_kick':
             _, hi, p, q, ns = op
             sid, qsid = sc.sid(p, ns), sc.sid(q, ns)
@@ -565,6 +586,10 @@ def _run(case, cfg, w):
             v.add('thread_raised', '%s: %r in %s' % (name, e, exc_site(e)),
                   '%s@%s' % (type(e).__name__, exc_site(e)))
     for o in w.ops:
+        if getattr(o, 'expected_failure', False):
+            if o.done and o.exc is None:
+                v.add('publish_failure_not_reported', repr(o.label))
+            continue
         if o.done and o.exc is not None:
             v.add('api_raised', '%s raised %r in %s' % (o.label, o.exc,
                                                         o.site),
